@@ -1,6 +1,6 @@
 #!/bin/bash
 # usage: run_all.sh [tier] [seed]   -- runs every registered check on /repo as it is; one summary line each
-cd /verif
+cd "$(dirname "$0")/.."
 tier=${1:-quick}; seed=${2:-}
 [ -n "$seed" ] && export VERIF_SEED=$seed
 fail=0
